@@ -626,3 +626,12 @@ func blockLocalStore(a *ssa.Alloc, load ssa.Instruction) ssa.Value {
 	}
 	return found
 }
+
+// AllocatedTypeOr returns AllocatedType(v) or, failing that, the static type
+// below interface wrappers.
+func AllocatedTypeOr(v ssa.Value) string {
+	if t := AllocatedType(v); t != "" {
+		return t
+	}
+	return StaticType(v)
+}
